@@ -200,6 +200,11 @@ class Node(Schema):
 
 
 def make_case(i, rng, tier):
+    if rng.random() < 0.03:
+        members = [{"kind": "cat", "lives": "3"}, {"type": "dog", "name": 5}, {"lives": 2}, {"kind": "bird"}, {}, {"kind": "dog"}, {"type": "cat"}, {"name": "x", "type": "fish"}]
+        kinds = ["defaultdict-list", "defaultdict-none", "defaultdict-str", "OrderedDict", "dict", "Counter"]
+        return {"fam": "P1d", "base": rng.choice(["Schema", "DataClass"]), "policy": rng.choice(["none", "none", "exclude", "preserve"]),
+                "where": rng.choice(["field", "field", "list", "param"]), "inputs": [(rng.choice(members), rng.choice(kinds)) for _ in range(6)]}
     r = rng.random()
     if r < 0.6:
         depth = rng.choice([1, 2, 2, 3])
@@ -290,6 +295,79 @@ def run_p1(case, ctx):
                 ctx.trivial("immutable input")
     finally:
         b.cleanup()
+
+
+P1D_SRC = """
+from typing import Literal, Union, Optional, List
+import utype
+from utype import Schema, DataClass, Field, Options
+class Cat({base}):
+    kind: Literal['cat'] = Field(alias_from=['type'])
+    lives: int = 9
+class Dog({base}):
+    kind: Literal['dog'] = Field(alias_from=['type'])
+    name: str = ''
+class Owner({base}):
+    pet: Union[Cat, Dog] = Field(discriminator='kind', required=False{kw})
+    pets: List[Union[Cat, Dog]] = Field(default_factory=list)
+    n: int = 0
+@utype.parse
+def adopt(pet: Union[Cat, Dog] = utype.Param(None, discriminator='kind')):
+    return type(pet).__name__
+"""
+
+
+def _mapping_of(kind, d):
+    import collections
+    if kind == "defaultdict-list":
+        return collections.defaultdict(list, d)
+    if kind == "defaultdict-none":
+        return collections.defaultdict(lambda: None, d)
+    if kind == "defaultdict-str":
+        return collections.defaultdict(str, d)
+    if kind == "OrderedDict":
+        return collections.OrderedDict(d)
+    if kind == "Counter":
+        return collections.Counter({k: v for k, v in d.items() if isinstance(v, int)}) if all(isinstance(v, int) for v in d.values()) else dict(d)
+    return dict(d)
+
+
+def run_p1d(case, ctx):
+    """a member of a discriminated union given as a mapping with a __missing__ hook (defaultdict ...): reading it must not write to it"""
+    ns = {}
+    kw = {"none": "", "exclude": ", on_error='exclude'", "preserve": ", on_error='preserve'"}[case["policy"]]
+    try:
+        exec(P1D_SRC.format(base=case["base"], kw=kw), ns)
+    except Exception as e:
+        ctx.count("declaration_rejected:" + type(e).__name__)
+        return
+    try:
+        for member, mk in case["inputs"]:
+            m = _mapping_of(mk, member)
+            x = {"pet": m, "n": 1} if case["where"] == "field" else ({"pets": [m], "n": 2} if case["where"] == "list" else m)
+            before = V.snapshot(x)
+            if case["where"] == "param":
+                out = run(lambda: ns["adopt"](x))
+            else:
+                out = run(lambda: ns["Owner"].__from__(x))
+            ctx.count("parses")
+            ctx.count("discriminated_member_given_as:" + mk)
+            after = V.snapshot(x)
+            sig = ("P1d", case["base"], case["policy"], case["where"], mk, tuple(sorted(member)), out.kind)
+            if before != after:
+                ctx.violation(f"C19/P1-input-mutated/discriminated-union-member/{mk.split('-')[0]}",
+                              f"Field(discriminator='kind') over Union[Cat, Dog], member given as {mk} {short(member, 80)} ({case['where']}): input changed by the parse "
+                              f"({out.kind}): before {short(before, 120)} after {short(after, 120)}",
+                              {"source": P1D_SRC.format(base=case["base"], kw=kw), "where": case["where"], "before": short(before, 300), "after": short(after, 300), "outcome": repr(out)}, sig=sig)
+                return
+            ctx.held(sig)
+    finally:
+        from utype.parser import base as pbase
+        for v in ns.values():
+            try:
+                pbase.__parsers__.pop(v, None)
+            except Exception:
+                pass
 
 
 # ---- P2 -------------------------------------------------------------------------------------------
@@ -494,6 +572,8 @@ def run_p3x(case, ctx):
 def run_case(case, ctx):
     if case["fam"] == "P3x":
         return run_p3x(case, ctx)
+    if case["fam"] == "P1d":
+        return run_p1d(case, ctx)
     if case["fam"] == "P1":
         return run_p1(case, ctx)
     if case["fam"] == "P2":
